@@ -175,7 +175,7 @@ class SolveGroupSwizzlerPartsel(object):
             e.append(ExprBinModel(
                         ExprFieldRefModel(f),
                         BinExprType.Eq,
-                        ExprLiteralModel(t_range[0], False, 32)))
+                        ExprLiteralModel(t_range[0], f.is_signed, max(32, f.width))))
         else:
             # Determine the max width to use for swizzling. 
             # max value of abs bounds
